@@ -30,6 +30,66 @@ def hdr_of(png):
     return (w, h, ct, depth, il, extra), tok
 
 
+def check_apng_output(rep, m, ob, orc, src, safe, sig="C10", ctx=""):
+    """structural comparison of an APNG and its optimised form; queues the pixel comparisons (default image and every frame,
+    decoded by the extracted specification) on `orc`. m: png, opts, policy, cmd[, info]"""
+    if ob == m["png"]:
+        return
+    keep = c07.keep_fn(m["policy"], safe)
+    kept = keep(b"acTL") and keep(b"fcTL") and keep(b"fdAT")
+    alpha = "alpha=1" in m["opts"]
+    try:
+        a, b = chunkgen.parse_apng(m["png"]), chunkgen.parse_apng(ob)
+        ha, ta = hdr_of(m["png"])
+        hb, tb = hdr_of(ob)
+    except Exception as ex:
+        rep.violation(sig + ":unreadable", f"output is not a well-formed (A)PNG{ctx}: {ex}", {"cases": [m["cmd"]]})
+        return
+
+    def bad(s_, what):
+        rep.violation(sig + s_[3:], what + f"{ctx} (options {m['opts']})", {"cases": [m["cmd"]]})
+    if not kept:
+        if b["actl"] is not None or b["first"] is not None or b["frames"] or b["seqs"]:
+            bad("C10:dangling-animation-chunks", "the policy strips animation chunks but the output still carries acTL/fcTL/fdAT")
+        orc.add(f"spec_rel_stream {ta} {tb}", src=src, what="default image" + ctx, rel="alphaeq" if alpha else "eq")
+        return
+    if m.get("info", {}).get("frames"):
+        rep.nontriv(m["cmd"])
+    if a["actl"] != b["actl"]:
+        bad("C10:actl", "frame count / play count changed")
+    if (a["first"] is None) != (b["first"] is None) or (a["first"] is not None and a["first"] != b["first"]):
+        bad("C10:default-image-fctl", "the default image's membership in the animation or its fcTL fields changed")
+    if len(a["frames"]) != len(b["frames"]):
+        bad("C10:frame-count", f"number of frames changed {len(a['frames'])} -> {len(b['frames'])}")
+        return
+    if b["seqs"] != list(range(len(b["seqs"]))):
+        bad("C10:sequence-numbers", f"sequence numbers are not consecutive from zero: {b['seqs'][:12]}")
+    if ha[2:5] != hb[2:5]:
+        bad("C10:format-changed", f"colour type / bit depth / interlacing of an animated image changed {ha[2:5]} -> {hb[2:5]}")
+        return
+    orc.add(f"spec_rel_stream {ta} {tb}", src=src, what="default image" + ctx, rel="alphaeq" if alpha else "eq")
+    for i, ((fa, da), (fb, db)) in enumerate(zip(a["frames"], b["frames"])):
+        if fa != fb:
+            bad("C10:fctl-fields", f"fcTL fields of frame {i} changed {fa} -> {fb}")
+        if len(db) > len(da):
+            bad("C10:frame-grew", f"frame {i} data grew")
+        t1, t2 = frame_stream_tok(ha, fa, da), frame_stream_tok(hb, fb, db)
+        if t2 is None:
+            bad("C10:frame-undecodable", f"frame {i} data does not inflate")
+        elif t1 is not None:
+            orc.add(f"spec_rel_stream {t1} {t2}", src=src, what=f"frame {i}" + ctx, rel="alphaeq" if alpha else "eq")
+
+
+def run_oracle(rep, model, orc, src_meta, sig="C10"):
+    ro = vlib.run_cases(model, orc.lines)
+    for oid, mo in orc.meta.items():
+        got = ro.get(oid)
+        if not (got == "eq" or (mo["rel"] == "alphaeq" and got == "alphaeq")):
+            src = src_meta[mo["src"]]
+            rep.violation(sig + ":pixels", f"{mo['what']} no longer decodes to the same pixels (relation {got}; options {src['opts']})",
+                          {"cases": [src["cmd"]], "relation": got})
+
+
 def run(rep):
     rng = rep.rng
     quick = rep.tier == "quick"
@@ -48,6 +108,9 @@ def run(rep):
         o = e2e.rand_opts(rng, "any")
         o = ",".join(kv for kv in o.split(",") if not kv.startswith(("strip=", "scale16=")) and kv != "-")
         o = (o + "," if o else "") + "strip=" + pol
+        if pol in ("none", "strip:" + b"tEXt".hex(), "keep:" + "+".join(x.hex() for x in (b"acTL", b"fcTL", b"fdAT"))) and k % 5 == 2:
+            # an animated image is never reduced, so a 16-to-8 scaling request must leave image AND frames at their depth
+            o += ",scale16=1" + (",recode=0" if k % 10 == 2 else "")
         cs.add(f"optlog {o} - {png.hex()}", png=png, opts=o, policy=pol, info=info, orig=png)
     out = e2e.run_pairs(rep, cs, "optimize_from_memory (APNG)")
     orc = vlib.Cases()
@@ -57,58 +120,8 @@ def run(rep):
         if not res.startswith("ok "):
             rep.violation("C10:failed", f"optimisation of a well-formed APNG failed: {res[:60]}", {"cases": [m["cmd"]]})
             continue
-        ob = bytes.fromhex(res[3:])
-        if ob == m["png"]:
-            continue
-        keep = c07.keep_fn(m["policy"], safe)
-        kept = keep(b"acTL") and keep(b"fcTL") and keep(b"fdAT")
-        alpha = "alpha=1" in m["opts"]
-        try:
-            a, b = chunkgen.parse_apng(m["png"]), chunkgen.parse_apng(ob)
-            ha, ta = hdr_of(m["png"])
-            hb, tb = hdr_of(ob)
-        except Exception as ex:
-            rep.violation("C10:unreadable", f"output is not a well-formed (A)PNG: {ex}", {"cases": [m["cmd"]]})
-            continue
-
-        def bad(sig, what):
-            rep.violation(sig, what + f" (options {m['opts']})", {"cases": [m["cmd"]]})
-        if not kept:
-            if b["actl"] is not None or b["first"] is not None or b["frames"] or b["seqs"]:
-                bad("C10:dangling-animation-chunks", "the policy strips animation chunks but the output still carries acTL/fcTL/fdAT")
-            orc.add(f"spec_rel_stream {ta} {tb}", src=cid, what="default image", rel="alphaeq" if alpha else "eq")
-            continue
-        if m["info"]["frames"]:
-            rep.nontriv(m["cmd"])
-        if a["actl"] != b["actl"]:
-            bad("C10:actl", "frame count / play count changed")
-        if (a["first"] is None) != (b["first"] is None) or (a["first"] is not None and a["first"] != b["first"]):
-            bad("C10:default-image-fctl", "the default image's membership in the animation or its fcTL fields changed")
-        if len(a["frames"]) != len(b["frames"]):
-            bad("C10:frame-count", f"number of frames changed {len(a['frames'])} -> {len(b['frames'])}")
-            continue
-        if b["seqs"] != list(range(len(b["seqs"]))):
-            bad("C10:sequence-numbers", f"sequence numbers are not consecutive from zero: {b['seqs'][:12]}")
-        if ha[2:5] != hb[2:5]:
-            bad("C10:format-changed", f"colour type / bit depth / interlacing of an animated image changed {ha[2:5]} -> {hb[2:5]}")
-            continue
-        orc.add(f"spec_rel_stream {ta} {tb}", src=cid, what="default image", rel="alphaeq" if alpha else "eq")
-        for i, ((fa, da), (fb, db)) in enumerate(zip(a["frames"], b["frames"])):
-            if fa != fb:
-                bad("C10:fctl-fields", f"fcTL fields of frame {i} changed {fa} -> {fb}")
-            if len(db) > len(da):
-                bad("C10:frame-grew", f"frame {i} data grew")
-            t1, t2 = frame_stream_tok(ha, fa, da), frame_stream_tok(hb, fb, db)
-            if t2 is None:
-                bad("C10:frame-undecodable", f"frame {i} data does not inflate")
-            elif t1 is not None:
-                orc.add(f"spec_rel_stream {t1} {t2}", src=cid, what=f"frame {i}", rel="alphaeq" if alpha else "eq")
-    ro = vlib.run_cases(model, orc.lines)
-    for oid, mo in orc.meta.items():
-        got = ro.get(oid)
-        if not (got == "eq" or (mo["rel"] == "alphaeq" and got == "alphaeq")):
-            src = cs.meta[mo["src"]]
-            rep.violation("C10:pixels", f"{mo['what']} no longer decodes to the same pixels (relation {got}; options {src['opts']})", {"cases": [src["cmd"]], "relation": got})
+        check_apng_output(rep, m, bytes.fromhex(res[3:]), orc, cid, safe)
+    run_oracle(rep, model, orc, cs.meta)
     rep.sample("optlog %s - <apng %dx%d ct%d depth %d, %d extra frames>" % (cs.meta["c0"]["opts"], cs.meta["c0"]["info"]["w"], cs.meta["c0"]["info"]["h"],
                                                                            cs.meta["c0"]["info"]["ct"], cs.meta["c0"]["info"]["depth"], len(cs.meta["c0"]["info"]["frames"])))
 
